@@ -108,13 +108,16 @@ def target_toy(case, rng):
             {"id": "dr", "type": "Distribution", "distribution": "torch.distributions.Gamma", "x": P("r", [2.1e-9]), "parameters": {"concentration": 2.0, "rate": 1.0e9}},
             {"id": "dbig", "type": "Distribution", "distribution": "torch.distributions.Normal", "x": P("big", [2.0e5]), "parameters": {"loc": 2.0e5, "scale": 0.5}},
             {"id": "dw", "type": "Distribution", "distribution": "torch.distributions.Gamma", "x": P("w", [1.0]), "parameters": {"concentration": 1.0e6, "rate": 1.0e6}},
-            {"id": "joint", "type": "JointDistributionModel", "distributions": ["dx", "dy", "ds", "dz", "dr", "dbig", "dw"]}]
+            {"id": "ds2", "type": "Distribution", "distribution": "torch.distributions.Dirichlet", "x": P("s2", rng.dirichlet([5, 2, 4]).tolist()), "parameters": {"concentration": [1.5, 2.5, 2.0]}},
+            {"id": "joint", "type": "JointDistributionModel", "distributions": ["dx", "dy", "ds", "ds2", "dz", "dr", "dbig", "dw"]}]
     extra_ops = [op("op.scale.r", "ScalerOperator", ["r"], rng, case["adapt"], scaler=float(rng.uniform(0.3, 0.9))),
                  op("op.slide.big", "SlidingWindowOperator", ["big"], rng, case["adapt"], width=1.0),
                  op("op.scale.w", "ScalerOperator", ["w"], rng, True, scaler=0.9),
                  # a scaler on a real-valued parameter (entries of either sign), and HMC directly on a positive parameter without a
                  # transform: trajectories that cross zero fail and are tried again with another momentum
                  op("op.scale.x", "ScalerOperator", ["x"], rng, case["adapt"], scaler=float(rng.uniform(0.4, 0.9))),
+                 # one Dirichlet operator over two simplexes of the same length
+                 op("op.dirichlet.two", "DirichletOperator", ["s", "s2"], rng, case["adapt"], scaler=float(gm.loguniform(rng, 5, 200))),
                  hmc_op("op.hmc.y", "joint", ["y"], 2, rng, False, dense=False, eps=float(rng.uniform(0.3, 0.7)), steps=int(rng.integers(2, 6)))]
     ops = [op("op.slide", "SlidingWindowOperator", ["x"], rng, case["adapt"], width=float(gm.loguniform(rng, 0.2, 3))),
            op("op.scale", "ScalerOperator", ["y"], rng, case["adapt"], scaler=float(rng.uniform(0.3, 0.9))),
@@ -134,7 +137,7 @@ def target_toy(case, rng):
                               "dual+mass": [{"id": "ad.dual", "type": "DualAveragingStepSize", "integrator": integ, "target_acceptance_probability": 0.7},
                                             {"id": "ad.mass", "type": "MassMatrixAdaptor", "parameters": ["z"], "mass_matrix": "op.hmc.mass", "update_frequency": 5}]}[kind]
         ops[3]["weight"] = 6.0
-    logged = ["x", "y", "s", "z", "r", "big", "w"]
+    logged = ["x", "y", "s", "s2", "z", "r", "big", "w"]
     if not case.get("adaptor") and not case.get("divergence_threshold"):
         ops = ops + extra_ops
     return spec, ops, logged
@@ -356,6 +359,8 @@ def run_case(case):
         spec, ops, logged, meta = target_skygrid(case, rng)
     if case["single"]:
         ops = [ops[int(rng.integers(len(ops)))]]
+    _DECLARED.clear()
+    _DECLARED.update({o_["id"]: o_["target_acceptance_probability"] for o_ in ops if "target_acceptance_probability" in o_})
     C = {"transitions": 0, "accepted": 0, "rejected": 0, "hastings_checked": 0, "logger_rows": 0, "tune_calls": 0, "hook_records": 0, "shadow_rebuilds": 0,
          "decisions_not_judged_tie": 0, "infinite_hastings": 0, "operator_types": [], "state_changed": 0}
     tmp = tempfile.mkdtemp(prefix="vt-c15-", dir="/dev/shm" if os.path.isdir("/dev/shm") else None)
@@ -446,6 +451,9 @@ def trace_run(case, dic, mcmc_mod, torch, carry=None):
     return records
 
 
+_DECLARED = {}  # operator id -> target acceptance probability written in its specification (the case being run)
+
+
 def install(o, dic, cur, torch, carried=None):
     """wrap step / accept / reject / tune of one operator instance (and momentum / integrator for HMC)"""
     log = cur.setdefault("log", [])
@@ -481,7 +489,7 @@ def install(o, dic, cur, torch, carried=None):
         running["accepted"] += bool(accepted)
         orig_tune(acceptance_prob, sample=sample, accepted=accepted)
         ads = [(type(a).__name__, bool(getattr(a, "_acceptance_rate", False)), getattr(a, "target_acceptance_probability", None)) for a in getattr(o, "_adaptors", [])]
-        cur["rec"]["tune"] = {"before": b0, "after": boldness(o), "acceptance_prob": float(acceptance_prob), "target": o.target_acceptance_probability,
+        cur["rec"]["tune"] = {"before": b0, "after": boldness(o), "acceptance_prob": float(acceptance_prob), "target": _DECLARED.get(o.id, o.target_acceptance_probability),
                               "disabled": o._disable_adaptation, "adaptors": ads, "calls": running["calls"], "running_rate": running["accepted"] / running["calls"]}
 
     o.step, o.accept, o.reject, o.tune = step, accept, reject, tune
@@ -746,6 +754,16 @@ def independent_hastings(r, tname, ss, cnt, where, detail, V, torch):
         return 0.0
     if tname == "DirichletOperator":
         c = r["scaler"]
+        if len(r["op_before"]) > 1:
+            # an operator over several simplexes moves one of them: the ratio is that of the move actually made
+            pairs = [(x.reshape(-1).numpy(), y.reshape(-1).numpy()) for x, y in zip(r["op_before"], r["op_proposed"])]
+            moved = [k for k, (b_, a_) in enumerate(pairs) if not np.array_equal(b_, a_)]
+            if len(moved) > 1:
+                V.append(tt.viol("C15:proposal-support:" + tname, "%s: the proposal changed %d parameters, this operator moves one simplex" % (where, len(moved)), **detail))
+                return "violation"
+            if not moved:
+                return None
+            b, a = pairs[moved[0]]
         if abs(a.sum() - 1) > 1e-9 or a.min() <= 0:
             return None
         return float(stats.dirichlet.logpdf(b / b.sum(), c * a) - stats.dirichlet.logpdf(a / a.sum(), c * b))
